@@ -265,8 +265,9 @@ def sigFromPy(pobj):
     elif isinstance(pobj, bool):
         return 'b'
     elif isinstance(pobj, int):
-        return 'i'
-    elif isinstance(pobj, int):
+        # INT32 when it fits, INT64 beyond (the former Python 2 "long")
+        if -2**31 <= pobj < 2**31:
+            return 'i'
         return 'x'
     elif isinstance(pobj, float):
         return 'd'
